@@ -115,6 +115,71 @@ def both_orders(r, R, fn, label):
 
 
 # ==============================================================================================
+# the wrapper module itself: taurex.mpi.broadcast / allgather / allreduce / barrier with their own bodies, over a
+# stand-in mpi4py whose communicator is the simulated one (everything above replaces these functions wholesale)
+# ==============================================================================================
+def _payload(letter, k=0):
+    if letter.startswith('list'):
+        n = int(letter[4:])
+        return [(np.array([float(i), float(i) * 0.5]), 1.0 / (i + 1)) for i in range(n)]
+    if letter == 'dict':
+        return {'a': [1, 2, 3], 'b': {'c': 2.5}, 'rank': k}
+    if letter == 'array':
+        return np.arange(7.0) * (k + 1)
+    if letter == 'array2d':
+        return (np.arange(12.0).reshape(3, 4) + k)
+    if letter == 'scalar':
+        return 3.25 + k
+    if letter == 'none':
+        return None
+    raise ValueError(letter)
+
+
+def _same_obj(a, b):
+    if isinstance(a, np.ndarray) or isinstance(b, np.ndarray):
+        return isinstance(a, np.ndarray) and isinstance(b, np.ndarray) and a.shape == b.shape and np.array_equal(a, b)
+    if isinstance(a, (list, tuple)):
+        return type(a) is type(b) and len(a) == len(b) and all(_same_obj(x, y) for x, y in zip(a, b))
+    if isinstance(a, dict):
+        return isinstance(b, dict) and sorted(a) == sorted(b) and all(_same_obj(a[k_], b[k_]) for k_ in a)
+    return a == b
+
+
+def wrap_case(case):
+    import taurex.mpi as tmpi
+    r = core.R(case)
+    R, letter, root = case['R'], case['payload'], case['root']
+    ranksim.install_deep()
+    try:
+        def fn(k):
+            mine = _payload(letter, k)
+            b = tmpi.broadcast(mine, rank=root)
+            g = tmpi.allgather(_payload(letter, k))
+            tmpi.barrier()
+            s_ = tmpi.allreduce(float(k + 1), 'sum')
+            return b, g, s_, tmpi.get_rank(), tmpi.nprocs()
+        res = ranksim.Comm(R, case['order'], timeout=60.0).run(fn)
+    finally:
+        ranksim.uninstall_deep()
+    tag = letter.rstrip('0123456789') if not letter.startswith('list') else (
+        'list-long' if int(letter[4:]) > 1000 else 'list-short')
+    if not r.check(res.ok, 'wrapper-runs', 'mpi-module/run-failed/%s' % tag, d=res.describe()):
+        return r
+    want_b = _payload(letter, root)
+    for k, (b, g, s_, rk, npr) in enumerate(res.out):
+        r.check(_same_obj(b, want_b), 'broadcast-delivers-root-object', 'mpi-module/broadcast/%s' % tag, rank=k,
+                got_len=len(b) if hasattr(b, '__len__') else None,
+                want_len=len(want_b) if hasattr(want_b, '__len__') else None)
+        r.check(isinstance(g, list) and len(g) == R and all(_same_obj(g[j], _payload(letter, j)) for j in range(R)),
+                'allgather-delivers-all', 'mpi-module/allgather/%s' % tag, rank=k)
+        r.check(s_ == R * (R + 1) / 2.0, 'allreduce-sums', 'mpi-module/allreduce', rank=k, got=s_)
+        r.check(rk == k and npr == R, 'rank-identity', 'mpi-module/rank', rank=k, got=[rk, npr])
+    r.observe(letter, R, root)
+    r.nontrivial = R > 1
+    return r
+
+
+# ==============================================================================================
 # simulator self-test
 # ==============================================================================================
 SIM_CASES = ['identity', 'kinds', 'raise-before', 'return-early', 'other-collective', 'raise-after',
@@ -273,6 +338,10 @@ def ov_values(shape, pattern, n):
         v = 1.0e3 + g
     elif pattern == 'pair':
         v = np.array([g[i % 2] for i in range(NMAX)])
+    elif pattern == 'nanel':
+        # one element is NaN in every sample (a bin or layer the model never covers), the others are generic numbers
+        v = g.copy()
+        v.reshape(NMAX, -1)[:, 0] = np.nan
     else:
         raise ValueError(pattern)
     out = []
@@ -355,6 +424,22 @@ def ov_case(case):
     want_v = ref.wvar(vals, w) if n > 0 else None
     want_m = ref.wmean(vals, w) if n > 0 else None
     sc2 = ref.scale2(vals)
+    if case['vals'] == 'nanel':
+        # element by element: the never-covered element has no variance (NaN in, NaN out), every other element has the
+        # two-pass variance of its own numbers
+        sc2 = ref.scale2([np.nan_to_num(v_, nan=0.0) for v_ in vals])
+        for k, o in enumerate(res.out):
+            v = np.asarray(o['var'], dtype=float)
+            if n < 2 or want_v is None:
+                continue
+            if not r.check(v.shape == np.shape(want_v), 'variance==two-pass', 'ov/nan-element/shape', got=v.shape):
+                continue
+            fin = np.isfinite(np.asarray(want_v))
+            r.check(core.close(v[fin], np.asarray(want_v)[fin], core.RTOL, ATOL_V * sc2), 'variance==two-pass',
+                    'ov/nan-element/finite-elements-wrong/' + tag, rank=k, got=v, want=want_v, counts=counts, weights=w)
+        r.observe(np.nan_to_num(np.asarray(res.out[0]['var'], dtype=float), nan=-1.0), res.verdict)
+        r.nontrivial = n >= 2 and sum(1 for c in counts if c > 0) >= 2
+        return r
     first = res.out[0]['var']
     for k, o in enumerate(res.out):
         v = o['var']
@@ -431,7 +516,7 @@ def ov_cases(tier):
                 cases.append({'R': R, 'n': n, 'w': list(w), 'assign': list(assign), 'shape': shape, 'vals': vals,
                               'again': True})
     devs = [('vec', 'generic'), ('scalar', 'generic'), ('mat', 'generic'), ('vec', 'const'), ('vec', 'offset'),
-            ('vec', 'pair')]
+            ('vec', 'pair'), ('vec', 'nanel'), ('mat', 'nanel')]
     if tier == 'quick':
         Rs, ns = [1, 2, 3], range(0, 5)
         for R in Rs:
@@ -441,7 +526,7 @@ def ov_cases(tier):
                         continue
                     add(R, n, w, 'vec', 'generic')
                 for w in w_patterns(n):
-                    for shape, vals in (devs[:5] if n <= 3 else [devs[0], devs[1], devs[3]]):
+                    for shape, vals in ((devs[:5] + devs[6:]) if n <= 3 else [devs[0], devs[1], devs[3]]):
                         add(R, n, w, shape, vals)
         bound = {'R': 3, 'n': 4, 'assignments': 'all R^n',
                  'weights': '{0,0.5,1}^n (n<=3), {0,1}^4, + 7 patterns (1e-300, 0.1, ties, generic, zeros)'}
@@ -853,6 +938,11 @@ def opt_cases(tier):
                  'large_n': [9, 17, 24]}
         cases += [{'R': R, 'n': n, 'wlet': wl, 'perm': 0, 'frac': 1.0, 'entry': 'direct'} for R in (2, 3)
                   for n in (9, 17, 24) for wl in ('distinct', 'equal')]
+        # many ranks (the arithmetic that deals samples to ranks is only non-trivial there): just below, just above and
+        # well above one sample per rank
+        cases += [{'R': R, 'n': n, 'wlet': 'distinct', 'perm': 0, 'frac': 1.0, 'entry': 'direct'}
+                  for R in (5, 7, 11, 13, 16) for n in sorted(set([R - 1, R + 1, 15, 30, 31]))]
+        bound['many_ranks'] = 'R in {5,7,11,13,16} x n in {R-1,R+1,15,30,31}'
     else:
         dims['R'] = [1, 2, 3, 4]
         dims['n'] = [4, 1, 2, 3, 5, 6]
@@ -860,7 +950,9 @@ def opt_cases(tier):
         cases = core.product_cases(dims, full=True)
         cases += [{'R': R, 'n': n, 'wlet': wl, 'perm': 0, 'frac': fr, 'entry': en} for R in (2, 3, 4, 5)
                   for n in (9, 17, 24, 40) for wl in ('distinct', 'equal') for fr in (1.0, 0.5) for en in ('direct', 'fit')]
-        bound = {'R': 4, 'n': 6, 'product': 'full', 'large_n': [9, 17, 24, 40]}
+        cases += [{'R': R, 'n': n, 'wlet': 'distinct', 'perm': 0, 'frac': 1.0, 'entry': 'direct'}
+                  for R in range(5, 17) for n in range(4, 65)]
+        bound = {'R': 4, 'n': 6, 'product': 'full', 'large_n': [9, 17, 24, 40], 'many_ranks': 'R 5..16 x n 4..64'}
     return cases, bound
 
 
@@ -872,6 +964,12 @@ def explore(ctx):
             for order in (['asc', 'desc'] if what in ('raise-before', 'return-early', 'other-collective') else ['asc']):
                 sims.append({'what': what, 'R': R, 'order': order})
     ctx.run_cases('sim_case', sims, phase='sim', serial=True)
+    wc = [{'R': R_, 'payload': pl, 'root': rt_, 'order': od}
+          for R_ in ((1, 2, 3) if ctx.tier == 'quick' else (1, 2, 3, 4, 7))
+          for pl in ('list0', 'list1', 'list5', 'list1023', 'list1024', 'list1025', 'list2500', 'dict', 'array', 'array2d',
+                     'scalar', 'none')
+          for rt_ in sorted(set([0, R_ - 1])) for od in ('asc', 'desc')]
+    ctx.run_cases('wrap_case', wc, phase='mpi-module', serial=True)
     cases, bound = ov_cases(ctx.tier)
     ctx.bounds['online_variance'] = bound
     ctx.bounds['online_variance.configurations'] = len(cases)
